@@ -1585,19 +1585,12 @@ void eval_instruction (const char *p) {
             s = sp - i;
 
             if (s->type != T_ARRAY)
-              {
-                num_varargs = 0; /* an earlier arr... in this call may have set it; nothing else resets it on error */
-                error ("*Item being expanded with ... is not an array.");
-              }
+              error ("*Item being expanded with ... is not an array.");
 
             arr = s->u.arr;
             n = arr->size;
-            if (sp + (n - 1) >= end_of_stack)
-              {
-                /* MaxArraySize is not bounded by the evaluator stack size */
-                num_varargs = 0; /* an earlier arr... in this call may have set it; nothing else resets it on error */
-                STACK_CHECK (n - 1);
-              }
+            /* MaxArraySize is not bounded by the evaluator stack size */
+            STACK_CHECK (n - 1);
             num_varargs += n - 1;
             if (!n)
               {
